@@ -214,4 +214,148 @@ def qlAuto (c : Fl) (cfg : QLCfg) (shape : List Nat) (x : List Rat) : List LElt 
     let k := qlCode c cfg p.2 p.1
     { x := p.1, code := k, qs := p.2, scale := c.r (p.2 / cfg.dts), y := c.r (k * p.2) }
 
+/-! ### the quantizer OBJECTS: what `__call__` reads from and writes to `self`
+
+  `qbAuto` / `qlAuto` above are FUNCTIONS of (configuration, data format, tensor).  The Python objects are
+  mutable: `quantized_bits.__call__` assigns `self.scale` (unless `freeze_scale`), `quantized_linear`
+  assigns `self.quantization_scale`, both read their public attributes (`bits`, `integer`, `keep_negative`,
+  `alpha`, `scale_axis`, `elements_per_scale`, `min/max_po2_exponent`) and the process-level
+  `K.image_data_format()` at call time.  The object model below threads exactly that state through a
+  history of calls (with public attributes possibly re-assigned between two calls); as coded,
+    * no public attribute is written by a call,
+    * the stored scale is written by every call and read by none (read, never written, when frozen),
+  so the k-th call of any history is the function applied to the k-th tensor (Props.C05, "no hidden state").
+-/
+
+/-- a stored tensor attribute (`self.scale`, `self.quantization_scale`): shape and flat row-major values -/
+structure Stored where
+  shape : List Nat
+  vals : List Rat
+  deriving Repr
+
+/-- numpy broadcasting of a stored tensor against `x` of shape `shape` (trailing axes aligned, size-1 axes
+    read at 0), at every flat position of `x` -/
+def bcastTo (t : Stored) (shape : List Nat) : List Rat :=
+  (List.range (prodL shape)).map fun i =>
+    let idx := (unravel shape i).drop (shape.length - t.shape.length)
+    t.vals.getD (ravel t.shape (bcastIdx t.shape idx)) 0
+
+/-- the public attributes of a `quantized_bits` object that the auto branch reads -/
+structure QBAttrs where
+  bits : Int
+  integer : Int
+  keepNeg : Bool
+  po2 : Bool                  -- alpha == "auto_po2" (else "auto")
+  sa : AxisSpec               -- scale_axis
+  eps : EpsSpec               -- elements_per_scale
+  minE : Option Int
+  maxE : Option Int
+  deriving Repr, DecidableEq
+
+/-- the configuration one call works with: the attributes plus the data format of the moment -/
+def QBAttrs.cfg (a : QBAttrs) (chLast : Bool) : QBCfg :=
+  { bits := a.bits, integer := a.integer, keepNeg := a.keepNeg, po2 := a.po2,
+    grp := { chLast := chLast, sa := a.sa, eps := a.eps }, minE := a.minE, maxE := a.maxE }
+
+structure QBObj where
+  attrs : QBAttrs
+  frozen : Bool               -- freeze_scale (post_training_scale given at construction)
+  scale : Option Stored       -- self.scale: unset before the first call unless frozen
+  deriving Repr
+
+/-- the frozen scale a call sees: `self.scale` broadcast against `x` -/
+def QBObj.pts (o : QBObj) (shape : List Nat) : Option (List Rat) :=
+  if o.frozen then o.scale.map (bcastTo · shape) else Option.none
+
+/-- one `quantized_bits.__call__` on the object: (object afterwards, elements of the result).
+    `if not self.freeze_scale: self.scale = scale` — stored here at every position of `x`. -/
+def qbCall (c : Fl) (o : QBObj) (chLast : Bool) (shape : List Nat) (x : List Rat) :
+    QBObj × Except Err (List QElt) :=
+  let r := qbAuto c (o.attrs.cfg chLast) (o.pts shape) shape x
+  ({ o with scale := if o.frozen then o.scale else
+      match r with
+      | .ok es => some ⟨shape, es.map (·.scale)⟩
+      | .error _ => o.scale }, r)
+
+/-- one step of a history: public attributes re-assigned before the call (or untouched), the data format
+    at the time of the call, the tensor -/
+structure QBStep where
+  set : Option QBAttrs
+  chLast : Bool
+  shape : List Nat
+  x : List Rat
+  deriving Repr
+
+def QBObj.reconf (o : QBObj) (s : Option QBAttrs) : QBObj := { o with attrs := s.getD o.attrs }
+
+/-- a history on ONE object: after every call the object and the result of that call -/
+def qbRun (c : Fl) : QBObj → List QBStep → List (QBObj × Except Err (List QElt))
+  | _, [] => []
+  | o, s :: t =>
+    let r := qbCall c (o.reconf s.set) s.chLast s.shape s.x
+    r :: qbRun c r.1 t
+
+/-- the same tensors, each given to a FRESH object that carries the attributes of the moment (and the
+    post-training scale of the construction, if any) -/
+def qbFresh (c : Fl) (frozen : Bool) (pts : Option Stored) : QBAttrs → List QBStep → List (Except Err (List QElt))
+  | _, [] => []
+  | a, s :: t =>
+    let a' := s.set.getD a
+    (qbCall c { attrs := a', frozen := frozen, scale := pts } s.chLast s.shape s.x).2 :: qbFresh c frozen pts a' t
+
+/-- the attributes a history of re-assignments leaves -/
+def qbAttrsAfter : QBAttrs → List QBStep → List QBAttrs
+  | _, [] => []
+  | a, s :: t => s.set.getD a :: qbAttrsAfter (s.set.getD a) t
+
+/-- the public attributes of a `quantized_linear` object -/
+structure QLAttrs where
+  bits : Int
+  integer : Int
+  symmetric : Bool
+  keepNeg : Bool
+  po2 : Bool
+  sa : AxisSpec
+  deriving Repr, DecidableEq
+
+def QLAttrs.cfg (a : QLAttrs) (chLast : Bool) : QLCfg :=
+  { bits := a.bits, integer := a.integer, symmetric := a.symmetric, keepNeg := a.keepNeg, po2 := a.po2,
+    chLast := chLast, sa := a.sa }
+
+structure QLObj where
+  attrs : QLAttrs
+  qs : Stored                 -- self.quantization_scale (initially the scalar data_type_scale)
+  deriving Repr
+
+/-- one `quantized_linear.__call__` with a string alpha: `self.quantization_scale` is overwritten by
+    `_get_auto_quantization_scale`, which starts from the data (`_get_quantization_scale_from_max_data`) -/
+def qlCall (c : Fl) (o : QLObj) (chLast : Bool) (shape : List Nat) (x : List Rat) : QLObj × List LElt :=
+  let es := qlAuto c (o.attrs.cfg chLast) shape x
+  ({ o with qs := ⟨shape, es.map (·.qs)⟩ }, es)
+
+structure QLStep where
+  set : Option QLAttrs
+  chLast : Bool
+  shape : List Nat
+  x : List Rat
+  deriving Repr
+
+def QLObj.reconf (o : QLObj) (s : Option QLAttrs) : QLObj := { o with attrs := s.getD o.attrs }
+
+def qlRun (c : Fl) : QLObj → List QLStep → List (QLObj × List LElt)
+  | _, [] => []
+  | o, s :: t =>
+    let r := qlCall c (o.reconf s.set) s.chLast s.shape s.x
+    r :: qlRun c r.1 t
+
+def qlFresh (c : Fl) (qs0 : Stored) : QLAttrs → List QLStep → List (List LElt)
+  | _, [] => []
+  | a, s :: t =>
+    let a' := s.set.getD a
+    (qlCall c { attrs := a', qs := qs0 } s.chLast s.shape s.x).2 :: qlFresh c qs0 a' t
+
+def qlAttrsAfter : QLAttrs → List QLStep → List QLAttrs
+  | _, [] => []
+  | a, s :: t => s.set.getD a :: qlAttrsAfter (s.set.getD a) t
+
 end QKV.AF
